@@ -30,6 +30,7 @@ type c07Plan struct {
 	Targets int       `json:"targets"`
 	Steps   []c07Step `json:"steps"`
 	Gate    bool      `json:"gate"` // one extra request parked after the pause gate while the first pause is issued (known-finding shape)
+	Overlap bool      `json:"overlap"` // the first pause is repeated while it is still draining a slow request
 }
 
 func c07GenReq(t *rapid.T, at int) c07Step {
@@ -80,6 +81,7 @@ func c07Gen(t *rapid.T) c07Plan {
 			}
 		}
 		p.Gate = rapid.IntRange(0, 9).Draw(t, "gate") == 0
+		p.Overlap = !p.Gate && rapid.IntRange(0, 9).Draw(t, "overlap") == 0
 		return p
 	}
 	n := rapid.IntRange(3, 16).Draw(t, "nsteps")
@@ -262,6 +264,34 @@ func c07Run(t *testing.T, p c07Plan) (res vfResult) {
 				}
 				reqs = append(reqs, reqObs{idx: i, pend: w.goDo(h, req), body: body})
 			case "pause":
+				if p.Overlap {
+					// a slow request keeps the first pause draining; the pause is repeated (other timeouts) meanwhile
+					slow := w.goDo(h, vfNewRequest("GET", "svc.test", "/slow", &vfCtl{ID: "slow", DurMs: 200}, nil))
+					synctest.Wait()
+					p1 := w.goCmd(func() error { return r.PauseService("svc", 100*time.Millisecond, vfMs(st.MaxPauseMs)) })
+					time.Sleep(10 * time.Millisecond)
+					synctest.Wait()
+					p2 := w.goCmd(func() error { return r.PauseService("svc", 500*time.Millisecond, 5*time.Second) })
+					<-p1.done
+					<-p2.done
+					<-slow.done
+					synctest.Wait()
+					heldReq := w.goDo(h, vfNewRequest("GET", "svc.test", "/held", &vfCtl{ID: "held"}, nil))
+					synctest.Wait()
+					if cr := w.runCmd(func() error { return r.ResumeService("svc") }); cr.Err != nil || cr.Panicked != "" {
+						res.failf("command-failed", "resume: %v %s", cr.Err, cr.Panicked)
+						return
+					}
+					<-heldReq.done
+					after := w.do(h, vfNewRequest("GET", "svc.test", "/after", &vfCtl{ID: "after"}, nil))
+					if heldReq.resp.Status != 200 || after.Status != 200 {
+						res.failf("refused-after-overlapping-pauses", "a pause repeated while the first was still draining, then resume: the held request got %v, a new one %v (want 200 from the targets)", heldReq.resp, after)
+						return
+					}
+					res.label("overlapping-pauses")
+					res.NonTrivial = true
+					return
+				}
 				if gateArmed {
 					// known-finding shape: a request has passed the pause gate, a slow request keeps the drain busy
 					gateArmed = false
